@@ -521,7 +521,7 @@ impl Scanner {
         let next1 = self.next_char(fac_start);
         if numlit.is_empty() {
             return Err(self.error_at(self.pos + skipped, "invalid radix point"));
-        } else if radix == 16 && (int_part.len() == 2) && (fac_part.len() == 1) {
+        } else if radix != 10 && (int_part.len() == 2) && (fac_part.len() <= 1) {
             return Err(self.error_at(self.pos + skipped, "mantissa has no digits"));
         } else if radix != 10 && matches!(next1, Some('e' | 'E')) {
             return Err(self.error_at(self.pos + skipped, "E exponent requires decimal mantissa"));
@@ -552,6 +552,13 @@ impl Scanner {
 
         let exp_part = &numlit[exp_start..];
         let fac_part = &numlit[fac_start..];
+        if !exp_part.is_empty() && !exp_part.ends_with(|c: char| c.is_ascii_digit()) {
+            return Err(self.error_at(
+                self.pos + skipped + exp_part.len(),
+                "exponent has no digits",
+            ));
+        }
+
         if radix == 16 && !fac_part.is_empty() && exp_part.is_empty() {
             return Err(self.error_at(
                 self.pos + skipped + exp_part.len(),
